@@ -285,6 +285,16 @@ func (b *bucket) rm(name string, at time.Time) (result gofakes3.ObjectDeleteResu
 		b.put(name, item)
 		result.IsDeleteMarker = true
 
+	} else if b.versioning == gofakes3.VersioningSuspended {
+		// Versioning is suspended and the current version is the null version
+		// (an object or an earlier delete marker): it is replaced by a null
+		// delete marker. Merely dropping it would bring the newest older
+		// version back - the deleted key would be readable and listed again.
+		object.data = nil
+		item := &bucketData{lastModified: at, name: name, deleteMarker: true}
+		b.put(name, item)
+		result.IsDeleteMarker = true
+
 	} else {
 		object.data = nil
 		if object.versions == nil || object.versions.Len() == 0 {
